@@ -100,6 +100,7 @@ let ev_str (e : ev) : string = match e with
   | EvCreated (e, t, iv) -> Printf.sprintf "created %s %s %s" (ent_str e) (zs t) (zs iv)
   | EvRemoved e -> "removed " ^ ent_str e
   | EvDeferred e -> "deferred " ^ ent_str e
+  | EvSel l -> "sel " ^ (if l = [] then "-" else String.concat "," (List.map (fun (e, f) -> ent_str e ^ ":" ^ zs f) l))
   | EvWrote (i, ok, p) -> Printf.sprintf "wrote c%s %s %s" (zs i) (b01 ok) (zs p)
   | EvRead (i, ok) -> Printf.sprintf "readret c%s %s" (zs i) (b01 ok)
   | EvSkip -> "skip"
@@ -127,6 +128,9 @@ let parse_ev (t : string list) : ev option =
   | ["created"; e; t; iv] -> Some (EvCreated (parse_ent e, num t, num iv))
   | ["removed"; e] -> Some (EvRemoved (parse_ent e))
   | ["deferred"; e] -> Some (EvDeferred (parse_ent e))
+  | ["sel"; "-"] -> Some (EvSel [])
+  | ["sel"; l] -> Some (EvSel (List.map (fun x -> match String.split_on_char ':' x with
+                                           | [e; f] -> (parse_ent e, num f) | _ -> failwith "sel") (String.split_on_char ',' l)))
   | ["wrote"; i; ok; p] -> Some (EvWrote (cid i, ok = "1", num p))
   | ["readret"; i; ok] -> Some (EvRead (cid i, ok = "1"))
   | ["skip"] -> Some EvSkip
@@ -140,7 +144,7 @@ let list_str f l = if l = [] then "-" else String.concat "," (List.map f l)
 
 let state_line (s : state) : string =
   let by_ent (a, _) (b, _) = compare (ent_str a) (ent_str b) in
-  Printf.sprintf "st clk=%s | q=%s closing=%s intr=%s pool=t:%d,l:%d,e:%d,c:%d cl=%s reg=%s evfd=%s"
+  Printf.sprintf "st clk=%s | q=%s closing=%s intr=%s pool=t:%d,l:%d,e:%d,c:%d cl=%s reg=%s sel=%s evfd=%s"
     (zs s.clk)
     (list_str (fun (k, v) -> zs k ^ ":" ^ (match v with Some t -> "t" ^ zs t | None -> "-")) s.queue)
     (list_str (fun i -> "c" ^ zs i) s.closing)
@@ -149,6 +153,7 @@ let state_line (s : state) : string =
     (list_str (fun (i, c) -> Printf.sprintf "c%s:%s:%s" (zs i) (zs c.c_back) (b01 c.c_susp))
        (List.sort (fun (a, _) (b, _) -> compare (iz a) (iz b)) s.clients))
     (list_str (fun (e, f) -> ent_str e ^ ":" ^ zs (map_events f)) (List.sort by_ent s.socks))
+    (list_str (fun (e, f) -> ent_str e ^ ":" ^ zs f) (sel_view s.selected))
     (b01 (iz s.evcount > 0))
 
 let run_model file =
